@@ -360,6 +360,30 @@ def case_oracle(case):
                                f"{m} reported, {w_top} (or {w} with function "
                                "bodies) equal objects in the graph",
                                "get_node_multiplicities"), info
+        # ---------------- (4b) call sites: every Call object, those inside
+        # function bodies included, each function object walked once -
+        # on the graph as built and on its deduplicated form (where equal
+        # definitions have become one shared object)
+        variants = [("as built", g)]
+        try:
+            variants.append(("deduplicated", T.deduplicate(g)))
+        except Exception:  # noqa: BLE001
+            pass
+        for label, gv in variants:
+            want_calls = len({id(n) for n in reflect.walk(
+                gv, into_slices=False).values() if isinstance(n, Call)})
+            try:
+                got_calls = an.get_num_call_sites(gv)
+            except Exception as e:  # noqa: BLE001
+                return Failure("analysis-exception", f"get_num_call_sites: "
+                               f"{type(e).__name__}: {e}",
+                               "get_num_call_sites|" + exc_site(e)), info
+            if got_calls != want_calls:
+                return Failure("call-sites-wrong",
+                               f"get_num_call_sites ({label}) = {got_calls}, "
+                               f"the graph holds {want_calls} Call objects",
+                               "get_num_call_sites"), info
+            info["call_sites"] = max(info.get("call_sites", 0), want_calls)
         # ---------------- (5) tag counts
         from pvf.usertags import PvfTag
         if not any(isinstance(n, Call) for n in top):
